@@ -1,39 +1,73 @@
 """C41 - The multi-process supervisor restarts exactly the failed workers.
 
-MC : specs/proc/ForkSupervisor.tla - every history of fork answers (parent with a fresh or reused
-     pid / child) and wait reports (live or unknown pid x exit 0 / non-zero / signal / core) for
-     1..3 workers (explicit, autodetected, None) and budgets 0..3.
+MC : specs/proc/ForkSupervisor.tla - every history of fork answers (parent with a fresh or
+     reused pid / child) and wait reports (live or foreign pid x exit 0 / non-zero / signal /
+     core) for 1..3 workers (explicit, <= 0 and None with autodetected cpu counts) and budgets
+     0..3 (thorough: 4 workers, budgets 0..4).  Invariants OneWorkerPerId, StartsExact,
+     AllStartedBeforeWaiting, BudgetRule, SuccessOnlyAfterAllNormal, ChildSeesOwnId; action
+     properties NormalNeverRestarted, RestartSameId, Terminal.
 S2C: every history up to length L enumerated by TLC is answered to the real
      tornado.process.fork_processes (os.fork / os.wait / sys.exit / cpu_count replaced from the
-     harness, real os.W* on the wait status TLC computed); what the supervisor does next, its
-     return value / exit code and task_id() are compared after every answer.
-C2S: seeded random responders (up to 6 workers, budgets up to the default 100, arbitrary exit
-     codes and signals, pid reuse, foreign pids) drive the real function; TLC validates every
-     recorded run against Trace_ForkSupervisor (all invariants at every step).
+     harness; the real os.W* decode the wait status the specification computed); what the
+     supervisor does next, its return value / exit code / failure and task_id() are compared
+     after every answer.  Plus seeded TLC simulation walks with 4 workers and larger budgets.
+C2S: seeded random environments (up to 6 workers, budgets -1..10 and the default 100, arbitrary
+     exit codes and signals, pid reuse, foreign pids) drive the real function; TLC validates
+     every recorded run against Trace_ForkSupervisor (all invariants at every step).
+
+Binding demonstrated during development (VERIF_REPO=/tmp/wt-proc, see notes/proc.md):
+`num_restarts > max_restarts` -> `>=`; restart with a wrong id; unknown-pid check dropped;
+exit status 1 treated as normal; signals without core dump treated as normal; `_task_id = pid`;
+`children.pop(pid)` -> `children[pid]` - each reported as VIOLATION by replay and trace validation.
 """
 from harness import framework
-from harness.proc_driver import replay_supervisor, gen_paths_fast, random_supervisor_trace
+from harness.proc_driver import replay_supervisor, gen_paths_fast, random_supervisor_trace, binding_selftest
+
+ACTIONS = ["ForkParentSym", "ForkChild", "Wait", "WaitUnknownSym"]
 
 
 def replayer(extra, path):
     return replay_supervisor(extra["cfg"], path)
 
 
+def _nontrivial(extra, path):
+    return len(path) >= 3 and any(s["act"] == "wait" for s in path)
+
+
 def run(ctx):
+    # 1. model checking of the specification
     ctx.mc("proc", "ForkSupervisor", "MC_ForkSupervisor.cfg",
-           required_actions=["ForkParentSym", "ForkChild", "Wait", "WaitUnknownSym"])
+           overrides=ctx.pick({}, {"Ns": "{0, 1, 2, 3, 4, 99}", "Cpus": "{1, 2, 3, 4}", "Budgets": "{0, 1, 2, 3, 4}",
+                                   "MaxN": 4, "MaxPid": 6}),
+           required_actions=ACTIONS)
+    # 2. spec -> code: all histories up to L
     L = ctx.pick(6, 8)
     paths = gen_paths_fast(ctx, "proc", "Gen_ForkSupervisor", "Gen_ForkSupervisor.cfg", overrides={"L": L})
-    ctx.replay(paths, replayer, nontrivial=lambda e, p: len(p) >= 3)
+    ctx.replay(paths, replayer, nontrivial=_nontrivial)
     ctx.cov["exhaustive"] = True
-    # code -> spec
-    n = ctx.pick(200, 5000)
+    sims = ctx.sim_paths("proc", "Gen_ForkSupervisor", "Gen_ForkSupervisor.cfg", num=ctx.pick(300, 5000), depth=30,
+                         overrides={"L": 30, "Ns": "{0, 1, 2, 3, 4, 99}", "Cpus": "{1, 3, 4}", "Budgets": "{0, 1, 2, 3, 5, 8}",
+                                    "Statuses": "{0, 1, 255, 1009, 1015, 2011}", "MaxN": 4, "MaxPid": 7})
+    ctx.replay(sims, replayer, nontrivial=_nontrivial, label="s2c-sim")
+    # 3. code -> spec: recorded runs under random environments
+    n = ctx.pick(300, 6000)
     maxn, maxpid = 6, 60
     jobs = [(i + 1, ctx.seed * 1000003 + i, maxn, maxpid, ctx.pick(60, 120)) for i in range(n)]
     traces = framework.pool_map(random_supervisor_trace, jobs)
-    ctx.validate("proc", "Trace_ForkSupervisor", "Trace_ForkSupervisor.cfg", traces,
-                 overrides={"MaxN": maxn, "MaxPid": maxpid})
-    ctx.cov["rule"] = "every fork/wait history up to length %d" % L
+    verdict = ctx.validate("proc", "Trace_ForkSupervisor", "Trace_ForkSupervisor.cfg", traces,
+                           overrides={"MaxN": maxn, "MaxPid": maxpid})
+    # non-vacuity of both bindings: a corrupted observation / dropped event / corrupted expectation must be noticed
+    good = [t for t in traces if verdict[t["id"]] is None]
+
+    def corrupt(o):
+        o["pc"] = "wait" if o["pc"] != "wait" else "fork"
+    binding_selftest(ctx, "Trace_ForkSupervisor", "Trace_ForkSupervisor.cfg", {"MaxN": maxn, "MaxPid": maxpid},
+                     good, paths, replayer, corrupt)
+    ctx.cov["rule"] = ("paths: every history of fork answers (parent with fresh/reused pid, child) and wait reports "
+                       "(live or foreign pid x status in {0, 1, signal 9}) up to length %d for num_processes in {0,1,2,3} "
+                       "(0 = 2 detected cpus) and max_restarts in {0,1,2}; seeded TLC simulation walks (4 workers, depth 30); "
+                       "random recorded environments (<= 6 workers, default budget 100 included); distinct = distinct "
+                       "(config, answer sequence); non-trivial = at least two answers including a wait report" % L)
 
 
 def replay(ctx, rec):
@@ -42,5 +76,13 @@ def replay(ctx, rec):
         r = replayer(d["extra"], d["path"])
         print("replay:", "diverges " + framework.jdump(r) if r else "follows the specification")
         return 1 if r else 0
-    print("trace replays are validated with: ./check C41 (trace stored in the replay file)")
-    return 0
+    if "trace" in d:
+        t = d["trace"]
+        if "job" in t:          # re-record the same seeded environment from the code under test
+            t = random_supervisor_trace(tuple(t["job"]))
+        v = ctx.validate("proc", "Trace_ForkSupervisor", "Trace_ForkSupervisor.cfg", [t],
+                         overrides={"MaxN": 6, "MaxPid": 60}, shards=1)
+        bad = v.get(t["id"])
+        print("replay:", "recorded run rejected at event %s" % bad["at"] if bad else "recorded run accepted by the specification")
+        return 1 if bad else 0
+    return 2
